@@ -606,6 +606,53 @@ fn c09_with_history_over_clone_body(n: usize) {
 }
 per_len!(c09_with_history_over_clone_n0to2, c09_with_history_over_clone_body, 0, 2, "WithHistory driven through Method::over; clone independence; both IntoIterator impls");
 per_len!(c09_with_history_over_clone_n3to4, c09_with_history_over_clone_body, 3, 4, "WithHistory driven through Method::over; clone independence; both IntoIterator impls");
+/// WithHistory fed in CHUNKS (next, then over, then over again; every split point, chunks may be empty): the
+/// history afterwards holds every output of the whole stream, oldest first, and the outputs are those of one pass
+fn c09_with_history_chunked_body(n: usize) {
+	if n >= N {
+		return;
+	}
+	let mut j = 0;
+	while j <= n {
+		setup();
+		let arr: [ValueType; N] = kani::any();
+		let init: ValueType = kani::any();
+		let mut wh: WithHistory<LogH, ValueType> = WithHistory::new((), &init).unwrap();
+		let mut res = [0u64; L];
+		// first chunk: element-wise when it has one element, otherwise through over
+		let k = if j == 1 {
+			res[0] = vb(wh.next(&arr[0]));
+			1
+		} else {
+			readout(&wh.over(&arr[..j]), &mut res, 0)
+		};
+		assert!(k == j, "first chunk: one output per input");
+		assert!(readout(&wh.over(&arr[j..n]), &mut res, j) == n - j, "second chunk: one output per input");
+		// a third, empty chunk must not disturb anything
+		assert!(wh.over(&arr[n..n]).is_empty(), "empty chunk yields nothing");
+		assert!(nlog() == n, "exactly n calls of the inner next");
+		check_exact(&arr, n, &res, 0);
+		let i: usize = kani::any();
+		kani::assume(i <= n);
+		if i < n {
+			assert!(wh.get(i).map(vb) == Some(out(n - 1 - i)), "chunked: get(i) is the i-th newest output of the whole stream");
+		} else {
+			assert!(wh.get(i).is_none(), "chunked: nothing beyond the whole stream");
+		}
+		let mut cnt = 0;
+		for x in wh.iter() {
+			assert!(vb(*x) == out(cnt), "chunked: iter() is oldest first over the whole stream");
+			cnt += 1;
+		}
+		assert!(cnt == n, "chunked: the history has one entry per input of the whole stream");
+		j += 1;
+	}
+	kani::cover!(true, "end reached");
+}
+per_len!(c09_with_history_chunked_n1to2, c09_with_history_chunked_body, 1, 2, "WithHistory fed in chunks keeps the whole history");
+per_len!(c09_with_history_chunked_n3, c09_with_history_chunked_body, 3, 3, "WithHistory fed in chunks keeps the whole history");
+per_len!(c09_with_history_chunked_n4, c09_with_history_chunked_body, 4, 4, "WithHistory fed in chunks keeps the whole history");
+
 fn c09_with_last_value_steps_body(n: usize) {
 	setup();
 	let arr: [ValueType; N] = kani::any();
